@@ -100,6 +100,22 @@ def _compile_spy(args):
         if spy_ok:
             fc.ZorgFileCompiler._add_note = orig
     r["reached_items"] = reached[0] if spy_ok else None
+    # the same text compiled the way `zorg -v db reindex` / `zorg compile` do (verbose > 0): flag and notes must not depend on it
+    if idx % 3 == 0 and "exc" not in r:
+        import contextlib
+        import io
+
+        from freezegun import freeze_time
+        from zorg.service.compiler import _api
+
+        try:
+            with C.QuietStderr(), contextlib.redirect_stdout(io.StringIO()), freeze_time(dt.datetime(*TODAY, 12, 0)):
+                pv = _api.walk_zorg_page(d, Path("p.zo"), verbose=1)
+            v = (bool(pv.has_errors), len(pv.notes))
+        except Exception as e:  # noqa: BLE001
+            v = ("exc", f"{type(e).__name__}: {str(e)[:80]}")
+        if v != (bool(r["has_errors"]), len(r["notes"])):
+            r["verbose_mismatch"] = [list(v), [bool(r["has_errors"]), len(r["notes"])]]
     return idx, r
 
 
@@ -231,6 +247,8 @@ def body(ctx: C.Ctx, proof: C.ProofStatus) -> C.Result:
         res.evaluations += 1
         res.count(kind)
         case = {"text": text, "stream": kind}
+        if r.get("verbose_mismatch"):
+            res.failures.append(C.Failure(f"compiled with verbose=1 the page gives (has_errors, notes) = {r['verbose_mismatch'][0]}, without {r['verbose_mismatch'][1]}", {**case, "kind": "verbose"}))
         if "exc" in r:
             res.count("exception")
             res.failures.append(C.Failure(f"compiling raised {r['exc']}", {**case, "kind": "exception"}))
